@@ -577,6 +577,12 @@ func init() {
 		}
 		return WithGo(c.st.Name("appended", r), c.sig.Results().At(0).Type()), true
 	}
+	// ChainIDWithLenKey(chainID) = big-endian length of the chain id followed by the chain id
+	libModels[RepoModule+"/x/operator/types.ChainIDWithLenKey"] = func(c *libCall) (Val, bool) {
+		ch := c.arg(0)
+		r := Cat(App(SBytes, "kf", IntLit(-1), App(SBytes, "bint", App(SInt, "blen", ch)), bnilT, bnilT, bnilT), ch)
+		return WithGo(r, c.sig.Results().At(0).Type()), true
+	}
 	libModels[RepoModule+"/x/operator/types.AppendMany"] = appendMany
 	libModels[RepoModule+"/x/appchain/coordinator/types.AppendMany"] = appendMany
 
